@@ -364,3 +364,74 @@ func (g *generator) genSyntax() (string, error) {
 	g.facts["parse_cases"] = len(cases)
 	return b.String(), nil
 }
+
+// genRuleState: for every rule type, which receiver fields are assigned in which Visit* callback.
+func (g *generator) genRuleState() (string, error) {
+	p, err := loadPkg(g.repo)
+	if err != nil {
+		return "", err
+	}
+	type rec struct{ rule, method, field string }
+	var recs []rec
+	names := make([]string, 0, len(p.files))
+	for n := range p.files {
+		names = append(names, n)
+	}
+	sort.Strings(names)
+	for _, fname := range names {
+		if !strings.HasPrefix(fname, "rule_") {
+			continue
+		}
+		for _, d := range p.files[fname].Decls {
+			fd, ok := d.(*ast.FuncDecl)
+			if !ok || fd.Recv == nil || fd.Body == nil || !strings.HasPrefix(fd.Name.Name, "Visit") {
+				continue
+			}
+			recvName := ""
+			if len(fd.Recv.List) == 1 && len(fd.Recv.List[0].Names) == 1 {
+				recvName = fd.Recv.List[0].Names[0].Name
+			}
+			rule := ""
+			if tv, ok := p.info.Types[fd.Recv.List[0].Type]; ok {
+				rule = namedOf(tv.Type)
+			}
+			seen := map[string]bool{}
+			ast.Inspect(fd.Body, func(n ast.Node) bool {
+				as, ok := n.(*ast.AssignStmt)
+				if !ok {
+					return true
+				}
+				for _, l := range as.Lhs {
+					// rule.f = … , rule.f[k] = …
+					e := l
+					if ix, ok := e.(*ast.IndexExpr); ok {
+						e = ix.X
+					}
+					if sel, ok := e.(*ast.SelectorExpr); ok {
+						if id, ok := sel.X.(*ast.Ident); ok && id.Name == recvName && !seen[sel.Sel.Name] {
+							seen[sel.Sel.Name] = true
+							recs = append(recs, rec{rule, fd.Name.Name, sel.Sel.Name})
+						}
+					}
+				}
+				return true
+			})
+		}
+	}
+	sort.Slice(recs, func(i, j int) bool {
+		a, b := recs[i], recs[j]
+		return a.rule+"."+a.method+"."+a.field < b.rule+"."+b.method+"."+b.field
+	})
+	var b strings.Builder
+	b.WriteString("namespace AL.Gen\n\n/-- rule_*.go: (rule type, Visit callback, receiver field assigned in it) -/\ndef ruleState : List (String × String × String) := [\n")
+	for i, r := range recs {
+		sep := ","
+		if i == len(recs)-1 {
+			sep = ""
+		}
+		fmt.Fprintf(&b, "  (%s, %s, %s)%s\n", lstr(r.rule), lstr(r.method), lstr(r.field), sep)
+	}
+	b.WriteString("]\n\nend AL.Gen\n")
+	g.facts["rule_state_assignments"] = len(recs)
+	return b.String(), nil
+}
